@@ -139,6 +139,15 @@ class StlAstParserVisitor(LtlAstParserVisitor, StlParserVisitor):
     def visitInterval(self, ctx):
         begin, begin_unit = self.visit(ctx.intervalTime(0))
         end, end_unit = self.visit(ctx.intervalTime(1))
+
+        # bounds are compared as durations: a missing unit is the unit of the
+        # other bound, else the default unit
+        b_unit = begin_unit or end_unit or self.unit
+        e_unit = end_unit or begin_unit or self.unit
+        if begin * self.U[b_unit] > end * self.U[e_unit]:
+            raise RTAMTException('The lower bound of the interval [{0}{1},{2}{3}] exceeds its upper bound'.format(
+                begin, begin_unit, end, end_unit))
+
         interval = Interval(begin, end, begin_unit, end_unit)
         return interval
 
